@@ -145,9 +145,13 @@ pub fn run_case(h0: &History, ctx: &mut Ctx) -> CaseResult {
                 if lp::feasible_closed(&rows, n).is_none() {
                     // empty by a margin?  (dyadic data: an exactly empty closed region is empty by far
                     // more than 1e-8; the relaxed test makes the demand explicit)
-                    let relaxed: Vec<lp::Row> = rows.iter().map(|r| lp::Row::le(r.a.clone(), &r.b + &(&delta() * &(&crate::exact::Q::one() + &(&r.b.abs() + &crate::exact::norm1(&r.a)))))).collect();
+                    let relaxed: Vec<lp::Row> = lp::relaxed(&rows, &delta());
                     if lp::feasible_closed(&relaxed, n).is_none() {
-                        return Err(Failure::new(format!("after {after}: node {idx} survives although its path region is empty by a margin")));
+                        let shown: Vec<String> = rows.iter().map(|r| format!("{:?} <= {}", r.a.iter().map(|v| v.to_f64()).collect::<Vec<_>>(), r.b.to_f64())).collect();
+                        return Err(Failure::with(
+                            format!("after {after}: node {idx} survives although its path region is empty by a margin"),
+                            serde_json::json!({"path_rows": shown}),
+                        ));
                     }
                     ctx.count("thin_survivor", 1);
                 }
@@ -198,7 +202,7 @@ pub fn run_case(h0: &History, ctx: &mut Ctx) -> CaseResult {
                 continue;
             }
             let rows = closed(&c.rows);
-            let relaxed: Vec<lp::Row> = rows.iter().map(|r| lp::Row::le(r.a.clone(), &r.b + &(&delta() * &(&crate::exact::Q::one() + &(&r.b.abs() + &crate::exact::norm1(&r.a)))))).collect();
+            let relaxed: Vec<lp::Row> = lp::relaxed(&rows, &delta());
             if lp::feasible_closed(&relaxed, n).is_some() {
                 nonempty += 1;
             }
@@ -241,7 +245,7 @@ impl Property for C06 {
         vec!["with dyadic data an exactly empty closed region is empty by a margin >> 1e-8; a survivor that is exactly empty but not by the relaxed margin is counted as thin_survivor, not judged".into(), "the unpruned twin uses compose<false> (decided separately by C02)".into()]
     }
     fn cases(&self, tier: Tier) -> usize {
-        tier.pick(3000, 30_000)
+        tier.pick(8000, 30_000)
     }
     fn strategy(&self, tier: Tier) -> BoxedStrategy<History> {
         let max_ops = tier.pick(6, 10);
